@@ -35,8 +35,8 @@ def coq_case(c):
 
 
 def correspond(run):
-    n = 2000 if run.tier == "quick" else 20000
-    npick = 4000 if run.tier == "quick" else 60000
+    n = 2000 if run.depth == "quick" else 20000
+    npick = 4000 if run.depth == "quick" else 60000
     rc, js, out, err = vlib.harness(["fy-cases", "--seed", run.seed, "--n", n], timeout=900)
     rc2, js2, out2, err2 = vlib.harness(["fy-pick-cases", "--seed", run.seed, "--n", npick], timeout=900)
     if rc != 0 or js is None or rc2 != 0 or js2 is None:
@@ -107,7 +107,7 @@ def _report(run, js):
 
 
 def direct(run):
-    n = 4000 if run.tier == "quick" else 100000
+    n = 4000 if run.depth == "quick" else 100000
     rc, js, out, err = vlib.harness(["fy-search", "--seed", run.seed, "--n", n], timeout=900)
     if rc != 0 or js is None:
         run.oblige("direct:fy-search", "correspondence", False, (out + err)[-800:])
